@@ -66,7 +66,8 @@ def expressions(names, rng):
             out.append('%%%d.%s' % (k, n))
     # the rest on a sample of names
     for n in rng.sample(names, min(12, len(names))) + ['no_such_name', '']:
-        for ks in ('x', '1x', '', ' 1', '+1', '1 ', '0x1', '1_0', '-', '--1', '1.5'):
+        # '\x1c1', '1\x1f': int() does not skip U+001C..U+001F although str.strip() does; '\xa01': it skips NBSP
+        for ks in ('x', '1x', '', ' 1', '+1', '1 ', '0x1', '1_0', '-', '--1', '1.5', '\x1c1', '1\x1f', '\xa01'):
             out.append('%%%s.%s' % (ks, n))
         out += [n, '1.' + n, '.' + n, ' %' + n + ' ', '\t%' + n + '\n', '% ' + n, '%%' + n, '$' + n, n + '%']
     out += ['', '   ', '%', '%.', '%1.2.x', '%1..x', '%..', 'x', '.']
